@@ -49,7 +49,7 @@ def coercible(v):
 
 
 def deep_coercible(v):
-    if isinstance(v, list):
+    if isinstance(v, (list, tuple)):
         return any(deep_coercible(x) for x in v)
     if isinstance(v, dict):
         return any(deep_coercible(k) or deep_coercible(x) for k, x in v.items())
@@ -87,8 +87,12 @@ def gen_arg(rng, depth=0):
 
 
 def enc(v):
+    if v is None:
+        return {"t": "none", "v": None}
     if isinstance(v, bool):
-        raise TypeError("bool")
+        return {"t": "bool", "v": v}
+    if isinstance(v, tuple):
+        return {"t": "tuple", "v": [enc(x) for x in v]}
     if isinstance(v, int):
         return {"t": "int", "v": str(v)}
     if isinstance(v, float):
@@ -106,6 +110,12 @@ def enc(v):
 
 def dec(e):
     t, v = e["t"], e["v"]
+    if t == "none":
+        return None
+    if t == "bool":
+        return bool(v)
+    if t == "tuple":
+        return tuple(dec(x) for x in v)
     if t == "int":
         return int(v)
     if t == "float":
@@ -122,10 +132,12 @@ def dec(e):
 
 
 def arg_sexp(v):
+    if isinstance(v, tuple):
+        return ["c", "none"]     # the model has one representative (None) for leaf types the helpers refuse
     if isinstance(v, list):
         return ["l"] + [arg_sexp(x) for x in v]
     if isinstance(v, dict):
-        return ["d"] + [[vmlib.const_sexp(k), arg_sexp(x)] for k, x in v.items()]
+        return ["d"] + [[const_or_refused_sexp(k), arg_sexp(x)] for k, x in v.items()]
     return ["c", vmlib.const_sexp(v)]
 
 
@@ -376,11 +388,31 @@ def mode_variants(rng, base_len):
                     "pop_result": pop})
     out.append({"helper": "insert_magic_int", "magic": rng.choice([0, 1, 0xC0FFEE, 2 ** 40, -3]), "index": None})
     out.append({"helper": "insert_magic_int", "magic": rng.randrange(0, 2 ** 32), "index": rng.randrange(0, base_len)})
+    out.append({"helper": "insert_magic_int", "magic": rng.randrange(0, 2 ** 32), "index": -rng.randrange(1, base_len + 3)})
     for comp in (False, True):
         for withargs in (False, True):
             cargs = [gen_const(rng) for _ in range(rng.randrange(1, 3))] if withargs else None
             out.append({"helper": "callobj", "fdef": FDEF_INJ, "fname": FNAME, "compile": comp,
                         "cargs": None if cargs is None else [enc(a) for a in cargs]})
+    return out
+
+
+def const_or_refused_sexp(v):
+    return "none" if isinstance(v, (tuple, list, dict)) else vmlib.const_sexp(v)
+
+
+def refusal_modes(rng, base_len):
+    """arguments _encode_python_obj / ConstantOpcode.new refuse (ValueError), at every depth"""
+    out = []
+    bads = [None, True, (1, 2), [None], [[False]], {"k": None}, {None: 1}, {(1,): 2}, {"k": [(1,)]}, [1, {"a": [True]}]]
+    for bad in bads:
+        out.append({"helper": "insert_python", "callee": list(SINK), "args": [enc(TOKEN), enc(bad)],
+                    "run_first": rng.random() < 0.5, "replace": rng.random() < 0.5, "expect_refusal": True})
+    for bad in [None, True, (1,), [1], {"a": 1}]:
+        out.append({"helper": "append_python", "callee": list(SINK), "args": [enc(TOKEN), enc(bad)],
+                    "pop_result": True, "expect_refusal": True})
+        out.append({"helper": "callobj", "fdef": FDEF_INJ, "fname": FNAME, "compile": False, "cargs": [enc(bad)],
+                    "expect_refusal": True})
     return out
 
 
@@ -422,7 +454,7 @@ def model_query(mode, base_ops, out_ops):
                    [arg_sexp(dec(a)) for a in mode["args"]], bool(mode["run_first"]), bool(mode["replace"]), p])
     if h == "append_python":
         return sx(["inject_append", wire(mode["callee"][0]), wire(mode["callee"][1]),
-                   [vmlib.const_sexp(dec(a)) for a in mode["args"]], bool(mode["pop_result"]), p])
+                   [const_or_refused_sexp(dec(a)) for a in mode["args"]], bool(mode["pop_result"]), p])
     if h == "insert_magic_int":
         return sx(["inject_magic", str(mode["magic"]), str(-1 if mode["index"] is None else mode["index"]), p])
     if h == "callobj":
@@ -438,7 +470,7 @@ def model_query(mode, base_ops, out_ops):
             if bc is None:
                 bc = wire(b"")
         return sx(["inject_callobj", wire(mode["fdef"]), wire(mode["fname"]), bc,
-                   [vmlib.const_sexp(dec(a)) for a in (mode["cargs"] or [])], p])
+                   [const_or_refused_sexp(dec(a)) for a in (mode["cargs"] or [])], p])
     raise ValueError(h)
 
 
@@ -675,6 +707,9 @@ def real_case(case):
             fails.append("check_safety-raises")
         elif sev == "LIKELY_SAFE":
             fails.append("rated-LIKELY_SAFE")
+        elif (mode["helper"] == "callobj" or mode.get("callee", [None, None])[1] in ("eval", "exec")) \
+                and sev != "OVERTLY_MALICIOUS":
+            fails.append("eval-exec-injection-not-OVERTLY_MALICIOUS")
     res["fails"] = fails
     res["ncalls_base"] = len(b["log"]) + len(b["fc"])
     return res
@@ -710,10 +745,14 @@ def judge(case, r, model_line):
                 pass                                        # already in fails as helper-refused
             else:
                 fails = [f for f in fails if f != "helper-refused"]   # both refuse: agreement
+                if model_line == "ERR ValueError" and not str(r.get("exc", "")).startswith("ValueError"):
+                    fails.append("refusal-is-not-a-ValueError")
         else:
             real = "OK " + sx(r["out_ops"]) if r.get("out_ops") is not None else "OUTSIDE-MODEL"
             if model_line != real:
                 fails.append("correspondence")
+    if case["mode"].get("expect_refusal") and r["status"] != "refused":
+        fails.append("unsupported-argument-accepted")
     hit = []
     for sig in known_signatures(case["mode"]):
         allowed = KNOWN_ALLOWED[sig]
@@ -745,7 +784,7 @@ def main(tier, seed):
                 "insert_function_call_on_unpickled_object plain/compiled x args) with fresh argument values "
                 "(ints, text, bytes, nested lists/dicts).  distinct = (base bytes, mode); non-trivial = the "
                 "base performs at least one global resolution or sink call, or has >= 8 opcodes")
-    built = chk.regen_and_build(["proofs/InjectProofs.vo"])
+    built = chk.regen_and_build(["proofs/InjectProofs.vo", "proofs/InjectSevProofs.vo", "proofs/InjectFkFrame.vo"])
     if built:
         chk.prove()
     rng = chk.rng
@@ -773,6 +812,8 @@ def main(tier, seed):
             continue
         for m in known_class_modes(rng, nops):
             cases.append({"kind": kind + "+known-class", "hex": data.hex(), "mode": m})
+        for m in refusal_modes(rng, nops):
+            cases.append({"kind": kind + "+refusal-class", "hex": data.hex(), "mode": m})
     results = run_cases(cases)
     lines, idx = [], []
     for i, (c, r) in enumerate(zip(cases, results)):
@@ -830,7 +871,34 @@ def main(tier, seed):
                f"value, empty stack at STOP, single final STOP, severity), {evaluated} injections",
                not prop_bad, brief(prop_bad))
 
+    # severity only (the bases are not loadable for real: BUILD applied to a builtin): base pickles that alias
+    # builtins eval / exec through a variable (C04's alias escape D18) or shadow the name by a stdlib import (D20)
+    from fickling.analysis import check_safety
+    from fickling.fickle import Pickled
+    alias_bad = []
+    alias_bases = [b"\x80\x02cbuiltins\neval\nNb(X\x01\x00\x00\x001tR.",
+                   b"cbuiltins\nexec\n}b(V1\ntR.",
+                   b"\x80\x02cast\neval\n0cbuiltins\neval\n(X\x01\x00\x00\x001tR."]
+    for ab in alias_bases:
+        for m in mode_variants(rng, 5):
+            if m["helper"] == "insert_magic_int" or (m["helper"] != "callobj" and m["callee"][1] not in ("eval", "exec")):
+                continue
+            try:
+                pk = Pickled.load(ab)
+                apply_mode(pk, m)
+                sev = check_safety(Pickled.load(pk.dumps())).severity.name
+            except Exception as e:
+                sev = f"raised {type(e).__name__}: {e}"
+            chk.count()
+            if sev != "OVERTLY_MALICIOUS":
+                alias_bad.append({"base_hex": ab.hex(), "mode": m, "severity": sev})
+    chk.oblige("eval/exec injections into base pickles that alias or shadow eval/exec are rated OVERTLY_MALICIOUS "
+               f"({len(alias_bases)} bases x every eval/exec mode)", not alias_bad, json.dumps(alias_bad[:2]))
+
     def search():
+        for e in alias_bad:
+            return {"case": {"kind": "alias-base", "hex": e["base_hex"], "mode": e["mode"]},
+                    "oracle": ["eval-exec-injection-not-OVERTLY_MALICIOUS: " + e["severity"]]}
         for e in prop_bad:
             return {"case": e["case"], "oracle": e["fails"]}
         # a correspondence failure alone: look at the same cases with the oracle only
